@@ -82,6 +82,8 @@ def run(ctx):
     try:
         _run_structural(ctx)
     except (AnalysisError, Exception) as exc:
+        if isinstance(exc, (NameError, ImportError, UnboundLocalError)):
+            raise       # a defect of the checker itself, never a reason to fall back
         if wit[2] is not None:
             raise  # neither the structural rules nor the evaluation can follow this code
         r0 = ctx.rule("R0", "the structural rules cannot follow this shape of the task coroutine; decided by evaluation under fault and cancellation injection")
@@ -95,6 +97,9 @@ def run(ctx):
     rule_id_lookup(ctx, r4)
     report_witness(r4, "src/gwf/backends/local.py::LocalOps.submit_target", "src/gwf/backends/local.py:1", cached_witness(ctx, "local-client", local_client_witness),
                    "LocalOps.submit_target([0, 3]) sends one enqueue_task with deps=[0, 3] and returns the pool's id", select=lambda d: "prerequisites" in d or "submit_target returns" in d)
+    # ... and the list gwf hands over names every prerequisite that is not complete - also one that was just submitted again after it failed or was cancelled (C02.R1/R2)
+    from .shared import import_rules
+    import_rules(ctx, r4, "C02", only={"R1", "R2"})
     from .evalhelpers import server_session_witness
     report_witness(r4, "src/gwf/backends/local.py::Server.handle_connection::deps", "src/gwf/backends/local.py:1", cached_witness(ctx, "server-session", server_session_witness),
                    "the prerequisite ids of an enqueue request reach Scheduler.enqueue_task as the re-iterable list the client sent", select=lambda d: "prerequisite" in d or "deps" in d)
